@@ -95,6 +95,33 @@ def impl(case):
             out["machine"] = common.enc_wfsa(C, R, state=lambda q: common.enc_sym(inv[q]))
         except Exception as ex:  # noqa
             out["machine"] = {"exc": type(ex).__name__, "msg": str(ex)[:200]}
+        # an operand that is EXTENDED after it has been used once (build -> combine -> extend -> combine): the second
+        # combination must see the operand as it is now, i.e. equal the combination of a machine with the same arcs built from scratch
+        try:
+            A, B = common.mk_wfsa(e[1][1], R, cls), common.mk_wfsa(e[2][1], R, cls)
+            one = common.semiring(R).one
+            op = (lambda u, v: u + v) if e[0] == "union" else (lambda u, v: u * v)
+            _ = op(A, B), op(B, A)
+            a0 = common.dec_sym(e[1][1]["arcs"][0][1]) if e[1][1]["arcs"] else common.dec_sym(case["xs"][-1][0]) if case["xs"] and case["xs"][-1] else ""
+            q0 = next((q for q, _ in A.I), None)
+            if q0 is not None:
+                A.add_arc(q0, a0, "__zz__", one)
+                A.add_F("__zz__", one)
+                A.add_I("__zz__", one)
+                fresh = common.mk_wfsa(common.enc_wfsa(A, R), R, cls)
+                L1, L2, R1, R2 = op(A, B), op(fresh, B), op(B, A), op(B, fresh)
+                grown = []
+                for x in xs[:8]:
+                    row = []
+                    for m_ in (L1, L2, R1, R2):
+                        try:
+                            row.append(common.enc_w(m_(x), R))
+                        except Exception as ex:  # noqa
+                            row.append({"exc": type(ex).__name__, "msg": str(ex)[:200]})
+                    grown.append(row)
+                out["operand_grown"] = grown
+        except Exception as ex:  # noqa
+            out["operand_grown"] = {"exc": type(ex).__name__, "msg": str(ex)[:200]}
     elif e[0] in ("plus", "reverse") and e[1][0] == "leaf":
         try:
             A = common.mk_wfsa(e[1][1], R, cls)
@@ -340,6 +367,21 @@ def run(ctx):
             if isinstance(res["vals"], dict):
                 semantic.append(_viol(c, hs, None, None, res["vals"]))
                 continue
+            og = res.get("operand_grown")
+            if isinstance(og, dict):
+                semantic.append(_viol(c, hs, "operand_grown", None, og))
+            elif og:
+                for x, row in zip(c["xs"][:8], og):
+                    for (ia, ib, what) in ((0, 1, "extended operand on the left"), (2, 3, "extended operand on the right")):
+                        a_, b_ = row[ia], row[ib]
+                        evaluations += 1
+                        if isinstance(a_, dict) or isinstance(b_, dict):
+                            if not (isinstance(a_, dict) and isinstance(b_, dict)):
+                                semantic.append(_viol(c, hs, ["operand_grown", x], b_, {"what": what, "reused_object": a_, "same_arcs_built_from_scratch": b_}))
+                        elif not common.close(common.num(a_), common.num(b_), tol, 1e-10):
+                            semantic.append(_viol(c, hs, ["operand_grown", x], b_, {"what": what, "reused_object": a_, "same_arcs_built_from_scratch": b_}))
+                        else:
+                            traces += 1
             for x, v, o in zip(c["xs"], res["vals"], oracle):
                 evaluations += 1
                 if isinstance(v, dict) or not common.close(common.num(v), o, tol, 1e-10):
